@@ -1,3 +1,3 @@
 // C16 harness: finite-element runs on Shape::Simplex<2> (see fe.hpp)
 #include "fe.hpp"
-namespace c16 { void fe_tria(Cur& c, std::ostream& o, bool full) { run_fe<FEAT::Shape::Simplex<2>>(c, o, full); } }
+namespace c16 { void fe_tria(Cur& c, std::ostream& o, int mode) { run_fe<FEAT::Shape::Simplex<2>>(c, o, mode); } }
